@@ -199,17 +199,26 @@ impl EventParser {
     fn infer_type_from_init(&self, expr: &Expr, symbols: &SymbolTable) -> String {
         match expr {
             Expr::Struct(expr_struct) => {
-                // Struct construction: Type { ... }
-                if let Some(segment) = expr_struct.path.segments.last() {
-                    return segment.ident.to_string();
-                }
+                // Struct construction: Type { ... } (or a variant: Status::Failed { .. })
+                return Self::type_named_by_value_path(&expr_struct.path, true);
             }
             Expr::Call(call) => {
-                // Function call like Type::new() or Type::default()
+                // Function call like Type::new(), models::Type::default() or the
+                // constructor of a variant, Status::Done(3): the segment in front of the last
+                // one names the type, unless it is a module or a generic container whose
+                // arguments the call does not show
                 if let Expr::Path(path) = &*call.func {
-                    // Check for Type::method() pattern
-                    if path.path.segments.len() >= 2 {
-                        return path.path.segments[0].ident.to_string();
+                    let segments = &path.path.segments;
+                    if segments.len() >= 2 {
+                        let owner = segments[segments.len() - 2].ident.to_string();
+                        let generic_container = [
+                            "Vec", "HashMap", "HashSet", "BTreeMap", "BTreeSet", "Option",
+                            "Result", "Box", "Rc", "Arc", "Self",
+                        ]
+                        .contains(&owner.as_str());
+                        if owner.starts_with(char::is_uppercase) && !generic_container {
+                            return owner;
+                        }
                     }
                 }
             }
